@@ -451,14 +451,18 @@ fn scenarios_c11(tier: Tier) -> Vec<Scenario> {
 /// across a scheduling point: a store that takes time)
 fn scenarios_c11_slow_store(tier: Tier) -> Vec<Scenario> {
     let mut out = vec![];
-    let cfgs: Vec<(usize, usize)> = tier.pick(vec![(1, 1), (2, 1)], vec![(1, 1), (2, 1), (2, 2)]);
+    // (two chains that both yield inside record_sample alternate at every row: with 2 cores the
+    // tree has millions of schedules at bound 1 - left out)
+    let cfgs: Vec<(usize, usize)> = vec![(1, 1), (2, 1)];
     let scripts: Vec<Vec<Op>> = tier.pick(
         vec![vec![Op::Flush], vec![Op::Pause, Op::Flush, Op::Resume]],
         vec![vec![Op::Flush], vec![Op::Flush, Op::Flush], vec![Op::Progress, Op::Flush], vec![Op::Inspect, Op::Flush], vec![Op::Pause, Op::Flush, Op::Resume]],
     );
     for &(ch, co) in &cfgs {
         for sc in &scripts {
-            let mut s = base(format!("DiagNuts/c{ch}k{co}/slow-store/{}/WaitLong", script_name(sc)), Preset::DiagNuts, ch, co, sc.clone(), Terminal::WaitLong, tier.pick(1, 2));
+            // (the extra scheduling point per recorded row makes bound 2 with two chains too large)
+            let bound = if ch == 1 { tier.pick(1, 2) } else { 1 };
+            let mut s = base(format!("DiagNuts/c{ch}k{co}/slow-store/{}/WaitLong", script_name(sc)), Preset::DiagNuts, ch, co, sc.clone(), Terminal::WaitLong, bound);
             s.plan.slow_store = true;
             out.push(s);
         }
